@@ -60,6 +60,8 @@ def case_strategy(draw):
         "descriptors": draw(st.sampled_from([True, True, False])),
         "indent": draw(st.sampled_from([None, None, 0, 2, 4])),
         "via": draw(st.sampled_from(["writer", "uri"])),
+        # a write() that raises (integer beyond CPython's 4300-digit limit) before / between the good records
+        "poison_at": draw(st.sampled_from([None, None, None, 0, 1])),
     }
 
 
@@ -76,6 +78,23 @@ def canon_nan(o):
             return (o[0], o[1], _NAN) if f != f else o
         return tuple(canon_nan(x) for x in o)
     return o
+
+
+def _poison(w, like):
+    """Write a record that cannot be serialised - same type as `like` when it has an integer field, so that it is the
+    FIRST record of its type the writer sees - and swallow the error, as a caller would."""
+    from flow.record import RecordDescriptor
+
+    ints = [n for t, n in like._desc.get_field_tuples() if t in ("varint", "filesize", "unix_file_mode")]
+    if ints:
+        bad = like._replace(**{ints[0]: 10**5000})
+    else:
+        bad = RecordDescriptor("t/poison", [("varint", "n")])(10**5000)
+    try:
+        w.write(bad)
+    except Exception:
+        return
+    raise RuntimeError("harness: the poison record was serialised")
 
 
 def split_documents(text):
@@ -104,6 +123,9 @@ def check(case, ctx):
         return
     records = built.value
     descriptors, indent, via = case["descriptors"], case["indent"], case["via"]
+    poison_at = case.get("poison_at")
+    if poison_at is not None and records:
+        ctx.cls("write-raised-then-continued")
     labels = set()
     for s in case["recs"]:
         gen.classify_record(s, labels)
@@ -127,7 +149,9 @@ def check(case, ctx):
                     q.append("descriptors=false")
                 w = RecordWriter("jsonfile://" + p + ("?" + "&".join(q) if q else ""))
             try:
-                for r in records:
+                for i, r in enumerate(records):
+                    if poison_at == i or (poison_at is not None and i == 0 and poison_at >= len(records)):
+                        _poison(w, r)
                     w.write(r)
                 w.flush()
             finally:
